@@ -11,7 +11,7 @@ EXTENDS TraceLib, FiniteSets
 VARIABLES l
 
 \* the constant-level part of Delivery.tla (its variables are not used here)
-D == INSTANCE Delivery WITH mode <- "", dest <- "", input <- "", pc <- "", compiled <- "", target <- "", others <- "", stdout <- "", result <- "", shape <- "", buffered <- FALSE, FlushBeforeReturn <- TRUE
+D == INSTANCE Delivery WITH mode <- "", dest <- "", input <- "", pc <- "", compiled <- "", target <- "", others <- "", stdout <- "", result <- "", shape <- "", buffered <- FALSE, fmt <- "", FlushBeforeReturn <- TRUE, FormatErrorSurfaces <- FALSE
 
 Deliver(e, i) ==
     LET c == IF e.compiled = "ok" THEN "ok" ELSE "err" IN
